@@ -104,7 +104,7 @@ def _date(  # noqa: PLR0912 PLR0911
         else:
             try:
                 dat = parser.parse(dat)
-            except parser.ParserError:
+            except (parser.ParserError, OverflowError):
                 # Input is returned unchanged. This is consistent
                 # with the reference implementation.
                 return str(dat)
